@@ -111,7 +111,7 @@ func mantissas(bits uint, rng *rand.Rand, n int) []uint64 {
 
 func c10Structured(r *fw.Rec, kind string, blk, nblk int) {
 	rng := r.Ctx().Rand(fmt.Sprintf("c10/%s/%d", kind, blk))
-	nr := r.Ctx().Pick(120, 1500)
+	nr := r.Ctx().Pick(120, 8000)
 	var lits []fpLit
 	add := func(spell, class string) { lits = append(lits, fpLit{kind, spell, class}) }
 	switch kind {
